@@ -16,12 +16,12 @@ FLAG = 'cssutils.log.raiseExceptions'
 
 
 def run(chk):
-    r12a(chk)
-    r12b(chk)
-    r12c(chk)
-    r12d(chk)
-    r12e(chk)
-    r12f(chk)
+    chk.attempt(r12a, chk)
+    chk.attempt(r12b, chk)
+    chk.attempt(r12c, chk)
+    chk.attempt(r12d, chk)
+    chk.attempt(r12e, chk)
+    chk.attempt(r12f, chk)
 
 
 def _has_call(x):
